@@ -73,7 +73,8 @@ def run(rep, tier, seed):
                 one(b, cm, nrs, ''.join(w), rnd.choice([L, R]), 'bitflip')
         for nr in nrs:
             one(b, cm, nrs, nr['id'], rnd.choice([L, R]), 'id-only')
-            for esc in ('1111', '111111111111', '1111' + '1' * 8, '1' * 28, '1' * 27, '1111' + '11111110', '1' * 12 + '1' * 16):
+            for esc in ('1111', '111111111111', '1111' + '1' * 8, '1' * 28, '1' * 27, '1111' + '11111110', '1' * 12 + '1' * 16,
+                        '1' * 12 + format(rnd.choice([0, 1, 14, 15, 200, 254]), '016b'), '1' * 12 + format(rnd.choice([255, 256, 300]), '016b'), '1111' + format(rnd.randrange(15), '08b')):
                 one(b, cm, nrs, nr['id'] + esc + randbits(rnd, rnd.choice([0, 3, 9])), rnd.choice([L, R]), 'size-escape')
         for _ in range(12):
             one(b, cm, nrs, randbits(rnd, rnd.randint(0, 2000)), rnd.choice([L, R]), 'random')
